@@ -13,8 +13,9 @@
 (* the two hooks; a writer's Announce is placed immediately before its Acquire  *)
 (* (the pending state is not observable).  Time: `now` is the recorder's clock  *)
 (* in ms; a timeout branch is accepted only at/after the caller's deadline, and *)
-(* every accepted event must leave OkJustified, ErrJustified and ByDeadline     *)
-(* (with Slack ms of scheduling tolerance) true.  Hang events (the driver's     *)
+(* every accepted event must leave OkJustified, ErrJustified (no timeout before  *)
+(* registration + timeout) and ByDeadline (nobody inside the call later than     *)
+(* first-select + timeout + Slack ms) true.  Hang events (the driver's           *)
 (* watchdog found goroutines that never returned) have no action.               *)
 (*                                                                              *)
 (* The instance is the protocol with either notify discipline (a send into a    *)
@@ -121,11 +122,15 @@ TStart(w) ==      \* a call begins in slot w (slots are reused once the previous
   /\ okby' = [okby EXCEPT ![w] = <<0, 0, 0>>] /\ rett' = [rett EXCEPT ![w] = 0]
   /\ precv' = [precv EXCEPT ![w] = -1] /\ armed' = [armed EXCEPT ![w] = FALSE]
   /\ UNCHANGED <<connVars, rw, best, reg, hread, runVars, now, flips, strat, hlo, rcur, hsl>>
-TArm(w) ==        \* first entry into the select: the deadline counts from here
+\* The caller's timer is started somewhere between the return of subscribe and the first entry into the select
+\* (the implementation arms it in the select; a repaired one creates it once before the loop).  timer[w], set by
+\* WSubBody to (time of registration + timeout), is therefore the earliest moment a timeout may be reported;
+\* orig[w] = (first entry into the select + timeout) is the latest moment the timer can fire, from which lateness counts.
+TArm(w) ==
   IF armed[w] \/ tmo[w] = Inf THEN NoOp
-  ELSE /\ timer' = [timer EXCEPT ![w] = now + tmo[w]] /\ orig' = [orig EXCEPT ![w] = now + tmo[w]]
+  ELSE /\ orig' = [orig EXCEPT ![w] = now + tmo[w]]
        /\ armed' = [armed EXCEPT ![w] = TRUE]
-       /\ UNCHANGED <<connVars, poolVars, wpc, want, tmo, hread, cancelled, result, okby, rett, runVars, now, flips, strat, hlo, precv, rcur, hsl>>
+       /\ UNCHANGED <<connVars, poolVars, wpc, want, tmo, hread, timer, cancelled, result, okby, rett, runVars, now, flips, strat, hlo, precv, rcur, hsl>>
 TWaiter ==
   LET w == E.i IN
   CASE K = "call" -> TStart(w)
@@ -166,7 +171,9 @@ Advance == /\ l <= N /\ K # "Reset" /\ E.t > now /\ now' = E.t
 
 \* what must hold after every accepted event
 LateT(w) == wpc[w] \notin {"idle", "sub", "sub_acq", "sub_in", "sub_rd", "done"} /\ orig[w] # Inf /\ now > orig[w] + Slack
-Holds == OkJustified /\ ErrJustified /\ \A w \in Waiters : ~LateT(w)
+ErrJustifiedT == \A w \in Waiters : /\ result[w] = "timeout" => (tmo[w] # Inf /\ rett[w] >= timer[w])
+                                    /\ result[w] = "cancel" => cancelled[w]
+Holds == OkJustified /\ ErrJustifiedT /\ \A w \in Waiters : ~LateT(w)
 
 Event == /\ l <= N
          /\ (l # seg => K # "Reset")
